@@ -6,7 +6,10 @@
 // quantifier helpers their logical meaning instead of executing the loop.
 package verifspec
 
-import "unsafe"
+import (
+	"reflect"
+	"unsafe"
+)
 
 // Forall reports whether f holds for every i in [lo, hi).
 func Forall(lo, hi int, f func(int) bool) bool {
@@ -310,4 +313,9 @@ func DisjointOf[T any](a, b []T) bool {
 	sz := unsafe.Sizeof(z)
 	pa, pb := uintptr(unsafe.Pointer(unsafe.SliceData(a))), uintptr(unsafe.Pointer(unsafe.SliceData(b)))
 	return pa+uintptr(cap(a))*sz <= pb || pb+uintptr(cap(b))*sz <= pa
+}
+
+// SameMap reports whether a and b are the same map object.
+func SameMap[K comparable, V any](a, b map[K]V) bool {
+	return reflect.ValueOf(a).Pointer() == reflect.ValueOf(b).Pointer()
 }
